@@ -301,10 +301,13 @@ class RuleRunner:
         contract = self.contract
         keybase = f"{self.prop}/{self.fname}{_sigstr(sig, choice)}/{_cfgstr(cfg)}"
         t0 = time.time()
+        from vcgen.core import known_related
+        alg.ESCALATE[0] = not known_related(keybase)
         results = {}     # clause -> list of (status, detail, smt)
-        pathinfo = []
+        LOG = []
 
         def thunk():
+            del LOG[:]
             args = self.build_args(choice, cfg)
             if sig.condition is not None:
                 c = sig.condition(*args)
@@ -317,11 +320,14 @@ class RuleRunner:
             for h in self.spec.get("hyps", lambda args, cfg: [])(args, cfg):
                 CTX.assume(h)
             CTX.n_pre = len(CTX.obs)
+            snap = [_snapshot(a) for a in args]
             r = impl(*args)
+            CTX.frame_ok = [nm for a, sn in zip(args, snap) for nm in _changed(a, sn)]
             return ("ok", args, r)
 
         try:
             with stubs.installed(self.contracts) as log:
+                LOG = log
                 for path in explore(thunk, max_paths=self.spec.get("max_paths", 40)):
                     facts = path["hyps"] + path["pc"]
                     # obligations raised during execution (callee preconditions, definedness)
@@ -341,8 +347,13 @@ class RuleRunner:
                         continue
                     CTX.hyps = list(path["hyps"])
                     CTX.pc = list(path["pc"])
+                    changed = getattr(CTX, "frame_ok", [])
+                    results.setdefault("arguments are not modified (frame)", []).append(
+                        (not changed, "modified: " + ", ".join(changed) if changed else "shallow field identity", None))
                     ens = contract.ensures(*args, r) if len(inspect.signature(contract.ensures).parameters) == len(args) + 1 \
                         else contract.ensures(*_pad(args, contract), r)
+                    if self.spec.get("post") is not None:
+                        ens = list(ens) + list(self.spec["post"](sig, choice, cfg, args, r, list(log)))
                     for label, fm in ens:
                         if isinstance(fm, (bool, np.bool_)):
                             results.setdefault(label, []).append((bool(fm), "concrete", None))
@@ -376,6 +387,35 @@ class RuleRunner:
     def _ob_unsupported(self, sig, what, msg):
         self.chk.add(Ob(key=f"{self.prop}/{self.fname}{_sigstr(sig)}/{what}", fn=self.fname, clause=what, engine="ALG",
                         status=UNSUPPORTED, detail=msg))
+
+
+def _snapshot(a):
+    """shallow snapshot of an operator argument's fields (identity of the values; copies of list/dict fields)"""
+    from cola.ops.operator_base import LinearOperator
+    if not isinstance(a, LinearOperator):
+        return None
+    out = {}
+    for k, v in vars(a).items():
+        out[k] = (v, list(v) if isinstance(v, list) else (dict(v) if isinstance(v, dict) else (set(v) if isinstance(v, set) else None)))
+    return out
+
+
+def _changed(a, snap):
+    if snap is None:
+        return []
+    bad = []
+    now = vars(a)
+    for k, (v, cp) in snap.items():
+        if k in ("isa_queried",):
+            continue
+        if k not in now or now[k] is not v:
+            bad.append(f"{type(a).__name__}.{k} rebound")
+        elif cp is not None and (list(now[k]) if isinstance(cp, list) else (dict(now[k]) if isinstance(cp, dict) else set(now[k]))) != cp:
+            bad.append(f"{type(a).__name__}.{k} mutated in place")
+    for k in now:
+        if k not in snap and k not in ("isa_queried",):
+            bad.append(f"{type(a).__name__}.{k} added")
+    return bad
 
 
 def _pad(args, contract):
